@@ -155,19 +155,27 @@ fn op_counter(k: K) -> usize {
 // ------------------------------------------------------------------------------------------
 // generation
 
+/// `--scale 0` is used by the Miri run of this layer: like scale 1, but without the rare
+/// very large texts (the interpreter is ~10^4 times slower).
+fn scale_allows_big(scale: u32) -> bool {
+    scale > 0
+}
+
 const PIECES: &[&str] = &["\n", "\r", "\r\n", "a", "bc", "é", "→", "😀", "\u{feff}", " ", ""];
 pub const SMALL_ALPHABET: &[&str] = &["\n", "\r", "a", "é", "😀", "\u{feff}"];
 
-pub fn generate(seed: u64, config: u64, scale: u32) -> Case {
+pub fn generate(seed: u64, config: u64, scale_arg: u32) -> Case {
     let mut r = Rng::new(seed);
     let faults = config == 1;
 
     // --- text
     let style = r.below(100);
     let mut text = String::new();
-    if r.chance(1, 4000) {
+    let big = r.chance(1, 4000);
+    let scale = scale_arg.max(1); // scale 0 (Miri): as 1, no big texts
+    if big && scale_allows_big(scale_arg) {
         // rare size classes (very long line, very many lines, beyond 2^16 bytes, 2^k line lengths)
-        text = crate::c13a::gen_big_text_pub(&mut r);
+        text = crate::bigtext::gen_big_text(&mut r);
     } else if style < 25 {
         // dense small scope over the raw 6-symbol alphabet
         let n = r.below(6);
